@@ -6,6 +6,7 @@ package runner
 
 import (
 	"bufio"
+	"bytes"
 	"crypto/sha256"
 	"encoding/binary"
 	"encoding/hex"
@@ -13,6 +14,7 @@ import (
 	"flag"
 	"fmt"
 	"hash/fnv"
+	"io"
 	"os"
 	"os/exec"
 	"path/filepath"
@@ -22,6 +24,7 @@ import (
 	"strconv"
 	"strings"
 	"sync"
+	"syscall"
 	"time"
 )
 
@@ -60,6 +63,7 @@ type Ctx struct {
 	states     map[uint64]struct{}
 	cut        bool
 	sampleCap  int
+	spec       *Spec
 }
 
 func newCtx() *Ctx {
@@ -289,6 +293,7 @@ func Main(spec Spec) {
 	worker := flag.String("worker", "", "i/n (internal)")
 	out := flag.String("out", "", "worker output file (internal)")
 	replay := flag.String("replay", "", "replay one violation file")
+	isolated := flag.Bool("isolated", false, "run one case from stdin in this process (internal)")
 	nworkers := flag.Int("workers", 0, "number of worker processes")
 	budget := flag.Duration("budget", 0, "override internal time budget")
 	flag.Parse()
@@ -309,6 +314,10 @@ func Main(spec Spec) {
 		b = *budget
 	}
 
+	if *isolated {
+		doIsolated(spec, *tier, seed)
+		return
+	}
 	if *replay != "" {
 		os.Exit(doReplay(spec, *replay, *tier, seed))
 	}
@@ -341,6 +350,7 @@ func doWorker(spec Spec, worker, out, tier string, seed int64, b time.Duration) 
 	ctx := newCtx()
 	ctx.ID, ctx.Tier, ctx.Seed, ctx.Shard, ctx.NShards = spec.ID, tier, seed, i, n
 	ctx.Deadline = time.Now().Add(b)
+	ctx.spec = &spec
 	spec.Work(ctx)
 
 	wo := workerOut{
@@ -376,6 +386,94 @@ func doWorker(spec Spec, worker, out, tier string, seed int64, b time.Duration) 
 			os.Exit(2)
 		}
 	}
+}
+
+type isoOut struct {
+	Violations []*Violation     `json:"violations"`
+	Outcomes   map[string]int64 `json:"outcomes"`
+	Evals      int64            `json:"evals"`
+	Distinct   int64            `json:"distinct"`
+}
+
+func doIsolated(spec Spec, tier string, seed int64) {
+	// address-space cap so that a runaway allocation kills only this child
+	var lim syscall.Rlimit
+	lim.Cur, lim.Max = 6<<30, 6<<30
+	syscall.Setrlimit(syscall.RLIMIT_AS, &lim)
+	data, err := io.ReadAll(os.Stdin)
+	if err != nil {
+		os.Exit(3)
+	}
+	out := os.Stdout
+	devnull, _ := os.OpenFile(os.DevNull, os.O_WRONLY, 0)
+	os.Stdout = devnull
+	ctx := newCtx()
+	ctx.ID, ctx.Tier, ctx.Seed, ctx.NShards, ctx.Replay = spec.ID, tier, seed, 1, true
+	ctx.spec = &spec
+	spec.Replay(ctx, data)
+	res := isoOut{Outcomes: ctx.outcomes, Evals: ctx.evals, Distinct: int64(len(ctx.distinct)) + ctx.nontrivN}
+	for _, k := range ctx.vorder {
+		res.Violations = append(res.Violations, ctx.violations[k])
+	}
+	enc, _ := json.Marshal(res)
+	out.Write(enc)
+}
+
+// RunIsolated runs one case (through the driver's Replay function) in a
+// child process with an address-space cap and merges what it found. If the
+// child dies (fatal error, out of memory, killed) it returns crashed=true
+// with the tail of its stderr; the caller decides what that means.
+func (c *Ctx) RunIsolated(cs any, timeout time.Duration) (crashed bool, tail string) {
+	data, err := json.Marshal(cs)
+	if err != nil {
+		panic(err)
+	}
+	cmd := exec.Command(os.Args[0], "-isolated", "-tier", c.Tier)
+	cmd.Env = append(os.Environ(), fmt.Sprintf("VERIF_SEED=%d", c.Seed), "GOMAXPROCS=2")
+	cmd.Stdin = bytes.NewReader(data)
+	var so, se bytes.Buffer
+	cmd.Stdout = &so
+	cmd.Stderr = &se
+	if err := cmd.Start(); err != nil {
+		panic(err)
+	}
+	done := make(chan error, 1)
+	go func() { done <- cmd.Wait() }()
+	var werr error
+	select {
+	case werr = <-done:
+	case <-time.After(timeout):
+		cmd.Process.Kill()
+		<-done
+		return true, fmt.Sprintf("child did not finish within %v", timeout)
+	}
+	var res isoOut
+	if werr != nil || json.Unmarshal(so.Bytes(), &res) != nil {
+		t := se.String()
+		if i := strings.Index(t, "\ngoroutine "); i > 0 {
+			t = t[:i]
+		}
+		if len(t) > 600 {
+			t = t[:600]
+		}
+		return true, strings.TrimSpace(t)
+	}
+	c.mu.Lock()
+	c.evals += res.Evals
+	c.nontrivN += res.Distinct
+	for k, v := range res.Outcomes {
+		c.outcomes[k] += v
+	}
+	for _, v := range res.Violations {
+		if old, ok := c.violations[v.Key]; ok {
+			old.N += v.N
+		} else {
+			c.violations[v.Key] = v
+			c.vorder = append(c.vorder, v.Key)
+		}
+	}
+	c.mu.Unlock()
+	return false, ""
 }
 
 func doReplay(spec Spec, path, tier string, seed int64) int {
